@@ -225,6 +225,7 @@ func c11Edge(size int) []string {
 	hs = append(hs,
 		"bytes= 1-2", "bytes=1 -2", "bytes=1- 2", "bytes=1-2 ", " bytes=1-2", "bytes=\t1-2", "bytes=1-2\t",
 		"bytes= -2", "bytes=- 2", "bytes=1 - ", "bytes = 1-2", "bytes =1-2",
+		"bytes=1 0-20", "bytes=10-2 0", "bytes=1\t0-", "bytes=-1 0", "bytes=0-1 2 3", "bytes=1 0 - 2 0", "by tes=1-2",
 		"bytes=0-1,2-3", "bytes=0-0,-1", "bytes=,", "bytes=0-1,", "bytes=,0-1", "bytes=0-1, 2-3",
 		"boats=0-0", "Bytes=0-1", "BYTES=1-", "byte=0-1", "bytes0-1", "bytes:0-1", "octets=0-1", "none",
 		"bytes=", "bytes=-", "-", "bytes", "=", "0-1", "bytes==0-1", "bytes=--1", "bytes=1--2", "bytes=-1-2",
